@@ -575,8 +575,8 @@ Definition decode (P : prims) (r : receiver) (cs : list bytes) : res bytes :=
 
 (* the code as it is in the repository checkout now *)
 Definition current : fixes :=
-  {| fx_pad_sign := true; fx_budget := true; fx_rsa_block := true; fx_null_cert := false; fx_own_cert := false;
-     fx_no_keys := false; fx_aes_block := false; fx_size_sig := false; fx_padding := false; fx_seq := false;
+  {| fx_pad_sign := true; fx_budget := true; fx_rsa_block := true; fx_null_cert := true; fx_own_cert := true;
+     fx_no_keys := true; fx_aes_block := true; fx_size_sig := true; fx_padding := true; fx_seq := true;
      fx_opn_budget := true |}.
 (* the pinned code before any fix: commit *)
 Definition pinned : fixes :=
